@@ -310,6 +310,6 @@ pub fn def() -> PropDef {
         level: "exploration",
         rule: "one case = REQ clients (1..3, real sockets or scripted) - ROUTER | proxy() | DEALER - REP workers (1..3, real or scripted echo), capture socket kind walked by the case index {none, PUSH, PUB, DEALER} connected to a scripted sink; 1..4 lock-step round trips per client with drawn payload shapes; transport, schedule and select! order drawn per case; every worker admitted before the first request; oracles on connection taps; non-trivial = judgement reached with proxy still running; distinct = distinct (plan, schedule, transport+select) hashes",
         assumptions: &["clients and workers do not depart during a run (proxy() returns on the first send error, and the statement speaks about the time while a proxy runs)", "the capture sink accepts every write"],
-        strata: vec![Stratum { name: "proxy_world", quick: 60_000, thorough: 1_000_000, exhaustive: (false, false), run: proxy_world, what: "REQ - ROUTER/proxy/DEALER - REP chain with capture, verbatim forwarding on taps" }],
+        strata: vec![Stratum { name: "proxy_world", quick: 60_000, thorough: (1_000_000) * 2, exhaustive: (false, false), run: proxy_world, what: "REQ - ROUTER/proxy/DEALER - REP chain with capture, verbatim forwarding on taps" }],
     }
 }
